@@ -445,6 +445,29 @@ func CheckC15(run *ev.Run) {
 			fail("exit:txt-with-ignore", fmt.Sprintf("text mode with ignore file: failed=%v but %d non-ignored Breaking entries", ts.Failed, br), map[string]interface{}{"ignore": subS, "text": ts.Out})
 		}
 		corr("txt-ignore-subset", ts, lab.modelExecute("txt", false, R0, sub))
+		// (f') the breaking-only report under the same ignore file: exactly the non-ignored Breaking entries, same exit status
+		bs := lab.runCmd(ja, jb, "txt", true, &subS)
+		bsc := 0
+		for _, ln := range textLines(bs.Out) {
+			if !frame[ln] && !strings.HasPrefix(ln, "compatibility test") {
+				bsc++
+			}
+		}
+		if bs.R == "ok" && (bsc != br || bs.Failed != (br > 0)) {
+			fail("breaking-only-with-ignore", fmt.Sprintf("-b with ignore file lists %d entries (failed=%v), %d non-ignored Breaking entries", bsc, bs.Failed, br), map[string]interface{}{"ignore": subS, "text": bs.Out})
+		}
+		corr("breaking-only-ignore-subset", bs, lab.modelExecute("txt", true, R0, sub))
+		// ... and with everything ignored it must be empty with exit 0
+		ba := lab.runCmd(ja, jb, "txt", true, &all)
+		bac := 0
+		for _, ln := range textLines(ba.Out) {
+			if !frame[ln] && !strings.HasPrefix(ln, "compatibility test") {
+				bac++
+			}
+		}
+		if ba.R == "ok" && (bac != 0 || ba.Failed) && !foreign(ba.Out) {
+			fail("breaking-only-ignore-all", fmt.Sprintf("-b with the whole JSON report as ignore file still lists %d entries (failed=%v)", bac, ba.Failed), map[string]interface{}{"text": ba.Out})
+		}
 		// (g) ignoring one single entry must remove that entry only (entries that differ in one field of the location are
 		// the discriminating cases)
 		singles := 3
